@@ -1,4 +1,668 @@
-use crate::report::Report;
-use crate::Ctx;
-pub fn run(_r: &mut Report, _ctx: &Ctx) {}
-pub fn replay(_case: &serde_json::Value) -> Result<(), String> { Ok(()) }
+//! C01 — generated hashes equal the TLSH reference algorithm for every input.
+
+use crate::checks::common::*;
+use crate::refmodel::*;
+use crate::report::*;
+use crate::streams::Stream;
+use crate::variant::*;
+use crate::{with_variant, Ctx};
+use serde_json::{json, Value};
+use tlsh::GeneratorType;
+
+// ---------------------------------------------------------------------------
+// judges
+
+/// Whole input through the public API, all 32 option settings.
+pub fn judge_input<V: Variant>(data: &[u8]) -> Result<[Outcome; 32], String> {
+    let g = catch(|| fresh_fed::<V>(data)).map_err(|p| format!("update panicked: {p}"))?;
+    let r = ref_fed::<V>(data);
+    if r.n <= u32::MAX as u64 && g.processed_len() != Some(r.n as u32) {
+        return Err(format!("processed_len() = {:?} after {} bytes", g.processed_len(), r.n));
+    }
+    compare_all_opts::<V>(&g, &r)
+}
+
+fn judge_input_dyn(variant: usize, data: &[u8]) -> Result<[Outcome; 32], String> {
+    with_variant!(variant, judge_input(data))
+}
+
+/// Feeds S[..top] byte by byte and judges at every n.
+fn judge_prefixes<V: Variant>(stream: Stream, from: u64, to: u64, acc: &mut Acc, key_base: u64, section: &str) {
+    let mut g = V::new_gen();
+    let mut r = V::ref_gen();
+    // bring both to `from` (chunked update for the real one; chunking is C03's subject)
+    let mut off = 0u64;
+    let mut buf = vec![0u8; 1 << 16];
+    while off < from {
+        let k = ((from - off) as usize).min(buf.len());
+        stream.fill(off, &mut buf[..k]);
+        g.update(&buf[..k]);
+        r.feed_all(&buf[..k]);
+        off += k as u64;
+    }
+    for n in from..=to {
+        acc.evals += 1;
+        acc.transitions += 33;
+        match compare_all_opts::<V>(&g, &r) {
+            Ok(outs) => {
+                if any_ok(&outs) {
+                    acc.nontrivial += 1;
+                }
+                acc.outcomes.insert(outcomes_fp(&outs));
+                if n == to {
+                    acc.sample(key_base + n, || json!({"variant": V::NAME, "stream": stream.name(), "n": n, "default_outcome": outcome_str(&outs[0])}));
+                }
+            }
+            Err(e) => {
+                acc.fail(key_base + n, section, format!("{} {} n={n}: {e}", V::NAME, stream.name()),
+                         json!({"kind": "prefix", "variant": V::NAME, "stream": stream.name(), "n": n}));
+                return;
+            }
+        }
+        if n < to {
+            let b = stream.byte(n);
+            g.update(&[b]);
+            r.feed(b);
+        }
+    }
+}
+
+fn judge_prefix_one<V: Variant>(stream: Stream, n: u64) -> Result<(), String> {
+    let data = stream.bytes(0, n as usize);
+    judge_input::<V>(&data).map(|_| ())
+}
+
+#[cfg(fast_tlsh_verif)]
+mod hooked_judges {
+    use super::*;
+    use crate::checks::common::hooked::*;
+    use tlsh::verif::GeneratorParts;
+
+    /// One `update(&[b])` from an injected state vs. the reference step.
+    pub fn judge_step<V: Variant>(p: &GeneratorParts, b: u8) -> Result<(), String> {
+        let mut g = V::gen_from_parts(p);
+        let mut r = ref_from_parts::<V>(p);
+        catch(|| g.update(&[b])).map_err(|e| format!("update panicked: {e}"))?;
+        r.feed(b);
+        let after = V::gen_to_parts(&g);
+        parts_match_ref::<V>(&after, &r)
+    }
+
+    /// Finalization of an injected state, all 32 (or the 8 distribution-relevant) settings.
+    pub fn judge_injected<V: Variant>(p: &GeneratorParts, opts: &[Opts]) -> Result<u64, String> {
+        let g = V::gen_from_parts(p);
+        let r = ref_from_parts::<V>(p);
+        let mut fp = Vec::with_capacity(opts.len());
+        for o in opts {
+            let real = catch(|| real_finalize::<V>(&g, o)).map_err(|e| format!("finalize({}) panicked: {e}", o.describe()))?;
+            let expect = ref_outcome(&r, o);
+            if real != expect {
+                return Err(format!("finalize({}) = {} but reference = {}", o.describe(), outcome_str(&real), outcome_str(&expect)));
+            }
+            fp.push(real);
+        }
+        Ok(outcomes_fp(&fp))
+    }
+}
+#[cfg(fast_tlsh_verif)]
+use hooked_judges::*;
+
+// ---------------------------------------------------------------------------
+// enumerators
+
+/// idx -> string over `alphabet` in length-then-lexicographic order.
+pub fn short_string(alphabet: &[u8], mut idx: u64) -> Vec<u8> {
+    let k = alphabet.len() as u64;
+    let mut len = 0usize;
+    let mut count = 1u64;
+    while idx >= count {
+        idx -= count;
+        count *= k;
+        len += 1;
+    }
+    let mut v = vec![0u8; len];
+    for i in (0..len).rev() {
+        v[i] = alphabet[(idx % k) as usize];
+        idx /= k;
+    }
+    v
+}
+
+pub fn short_string_count(k: u64, max_len: u32) -> u64 {
+    (0..=max_len).map(|l| k.pow(l)).sum()
+}
+
+/// All compositions of `n` into `parts` non-negative parts, as an iterator by index is
+/// awkward; enumerate recursively into a Vec (sizes here are <= ~3M).
+pub fn compositions(n: usize, parts: usize) -> Vec<Vec<u16>> {
+    fn rec(n: usize, parts: usize, cur: &mut Vec<u16>, out: &mut Vec<Vec<u16>>) {
+        if parts == 1 {
+            cur.push(n as u16);
+            out.push(cur.clone());
+            cur.pop();
+            return;
+        }
+        for i in 0..=n {
+            cur.push(i as u16);
+            rec(n - i, parts - 1, cur, out);
+            cur.pop();
+        }
+    }
+    let mut out = Vec::new();
+    rec(n, parts, &mut Vec::new(), &mut out);
+    out
+}
+
+pub const VALUE_ALPHABETS: [[u32; 4]; 6] = [
+    [0, 1, 2, 3],
+    [0, (1 << 24) - 1, 1 << 24, (1 << 24) + 1],
+    [1, 42949672, 42949673, 1 << 31],
+    [(1u32 << 31) - 1, 1 << 31, u32::MAX - 1, u32::MAX],
+    [0, 7, 100, 1600],
+    [3, (1 << 25) + 3, (1 << 30) + 1, u32::MAX],
+];
+
+/// Places `counts[c]` buckets of value `values[c]` into `nb` effective buckets.
+/// placement 0 = ascending, 1 = descending, 2 = bit-reversed index order.
+pub fn place_buckets(nb: usize, counts: &[u16], values: &[u32], placement: usize) -> [u32; 256] {
+    let mut seq = Vec::with_capacity(nb);
+    for (c, &cnt) in counts.iter().enumerate() {
+        for _ in 0..cnt {
+            seq.push(values[c]);
+        }
+    }
+    assert_eq!(seq.len(), nb);
+    let mut b = [0u32; 256];
+    match placement {
+        0 => b[..nb].copy_from_slice(&seq),
+        1 => {
+            for i in 0..nb {
+                b[nb - 1 - i] = seq[i];
+            }
+        }
+        _ => {
+            // a fixed permutation of 0..nb that scatters neighbours: multiply by an odd
+            // constant coprime with nb (48, 128, 256 -> 37 works for all: gcd(37, nb) = 1)
+            for i in 0..nb {
+                b[(i * 37 + 11) % nb] = seq[i];
+            }
+        }
+    }
+    // physical buckets beyond nb hold an arbitrary non-zero filler (must not matter)
+    for i in nb..256 {
+        b[i] = 0x5a5a_5a5a;
+    }
+    b
+}
+
+pub fn qratio_alphabet() -> Vec<u32> {
+    let mut v: Vec<u32> = vec![0, 1, 2, 3, 15, 16, 17, 99, 100, 101];
+    for k in [8u32, 16, 23, 24, 25, 26, 31] {
+        v.push((1u32 << k) - 1);
+        v.push(1u32 << k);
+        v.push((1u32 << k) + 1);
+    }
+    let c = ((1u64 << 32) / 100) as u32; // 42949672
+    v.extend_from_slice(&[c - 1, c, c + 1, c + 2, 2 * c, 2 * c + 1, 3 * c + 1]);
+    v.extend_from_slice(&[u32::MAX, u32::MAX - 1, u32::MAX / 2, 1000, 1600, 6, 7, 160, 1599, 1601, 0x0100_0001, 0x00ff_ffff, 33554431, 50331648, 12345678, 3000000000, 4000000000, 2863311530, 1431655765]);
+    v.sort();
+    v.dedup();
+    v
+}
+
+// ---------------------------------------------------------------------------
+
+pub fn run(r: &mut Report, ctx: &Ctx) {
+    quiet_panics();
+    let quick = ctx.quick();
+    let seed = ctx.seed;
+
+    #[cfg(fast_tlsh_verif)]
+    {
+        for (name, is48) in [("bmap-256", false), ("bmap-48", true)] {
+            if !ctx.want(name) {
+                continue;
+            }
+            r.section(
+                name,
+                "every (salt,b1,b2,b3): real bucket mapping (hook entry point to the function the generator calls) vs four sequential look-ups in the pinned Pearson table (48-fold: x>=240 -> 48 else x%48); distinct by enumeration; non-trivial = all; outcomes = distinct result values",
+                "2^32 (complete domain)",
+                true,
+                |s| {
+                    s.acc = par_for(1 << 16, 16, |hi, acc| {
+                        let salt = (hi >> 8) as u8;
+                        let b1 = hi as u8;
+                        for lo in 0..(1u32 << 16) {
+                            let b2 = (lo >> 8) as u8;
+                            let b3 = lo as u8;
+                            let (real, expect) = if is48 {
+                                (tlsh::verif::b_mapping_48(salt, b1, b2, b3), ref_bmap48(salt, b1, b2, b3))
+                            } else {
+                                (tlsh::verif::b_mapping_256(salt, b1, b2, b3), ref_bmap256(salt, b1, b2, b3))
+                            };
+                            if real != expect {
+                                acc.fail((hi << 16) | lo as u64, name, format!("b_mapping{}({salt},{b1},{b2},{b3}) = {real} but reference = {expect}", if is48 { "_48" } else { "_256" }),
+                                         json!({"kind": "bmap", "is48": is48, "salt": salt, "b1": b1, "b2": b2, "b3": b3}));
+                                return;
+                            }
+                            if hi % 4099 == 0 {
+                                acc.outcomes.insert(real as u64);
+                            }
+                        }
+                        acc.evals += 1 << 16;
+                        acc.transitions += 1 << 16;
+                        acc.nontrivial += 1 << 16;
+                        acc.sample(hi, || json!({"salt": salt, "b1": b1, "b2": 255, "b3": 255, "value": ref_bmap(if is48 { Kind::B48 } else { Kind::B256 }, salt, b1, 255, 255)}));
+                    });
+                },
+            );
+        }
+
+        if ctx.want("step") {
+            let variants: Vec<usize> = if quick { vec![0, 2, 3] } else { vec![0, 1, 2, 3, 4] };
+            let fillers: Vec<(u8, u8)> = if quick {
+                vec![(0x5a, 0xff)]
+            } else {
+                let v = [0x00u8, 0x5a, 0xff];
+                v.iter().flat_map(|&a| v.iter().map(move |&b| (a, b))).collect()
+            };
+            r.section(
+                "step",
+                "one real update(&[b4]) from an injected full-window state vs the reference step (all 256 physical buckets, checksum, length, tail compared): for each of the six salted triplets, the three bytes it reads swept exhaustively (2^24) with the other two window bytes from a filler alphabet; bucket pre-values cycle {0,1,2^24-1,2^31-1,2^32-1} (wrap), checksum pre-state cycles 4 values; distinct by enumeration; non-trivial = all",
+                &format!("6 triplets x 2^24 x {} fillers x {} variants", fillers.len(), variants.len()),
+                true,
+                |s| {
+                    use tlsh::verif::GeneratorParts;
+                    // positions (in b0..b3) read by each triplet together with b4
+                    const TRIP: [(usize, usize); 6] = [(3, 2), (3, 1), (2, 1), (2, 0), (3, 0), (1, 0)];
+                    const PRE: [u32; 5] = [0, 1, (1 << 24) - 1, (1u32 << 31) - 1, u32::MAX];
+                    const CK: [[u8; 3]; 4] = [[0, 0, 0], [0x30, 0xa5, 0x01], [0x2f, 0xff, 0x80], [0x11, 0x30, 0xff]];
+                    let nf = fillers.len() as u64;
+                    let nv = variants.len() as u64;
+                    // work item = (variant, filler, triplet, b4, x); inner loop over y
+                    let total = nv * nf * 6 * 65536;
+                    let fillers = &fillers;
+                    let variants = &variants;
+                    s.acc = par_for(total, 64, |idx, acc| {
+                        let x = (idx % 256) as u8;
+                        let b4 = ((idx >> 8) % 256) as u8;
+                        let rest = idx >> 16;
+                        let t = (rest % 6) as usize;
+                        let f = ((rest / 6) % nf) as usize;
+                        let v = variants[((rest / 6 / nf) % nv) as usize];
+                        let (fa, fb) = fillers[f];
+                        for y in 0..=255u8 {
+                            let mut tail = [0u8; 4];
+                            let (px, py) = TRIP[t];
+                            let mut fill = [fa, fb].into_iter();
+                            for pos in 0..4 {
+                                tail[pos] = if pos == px { x } else if pos == py { y } else { fill.next().unwrap() };
+                            }
+                            let sel = (x as usize + y as usize + b4 as usize) % 5;
+                            let mut buckets = [PRE[sel]; 256];
+                            buckets[(y as usize * 7 + 3) % 256] = PRE[(sel + 1) % 5];
+                            let ck = CK[(x as usize ^ y as usize) % 4];
+                            let p = GeneratorParts { buckets, len: 1000 + idx as u32 % 7, checksum: ck, tail, tail_len: 4 };
+                            let mut p = p;
+                            // checksum bytes beyond the variant's size are not state
+                            let vck = [1usize, 1, 3, 1, 3][v];
+                            for i in vck..3 {
+                                p.checksum[i] = 0;
+                            }
+                            // on the 48-bucket variant a reachable checksum is <= 48; keep pre-states reachable
+                            if v == 0 {
+                                p.checksum[0] %= 49;
+                            }
+                            let res = with_variant!(v, judge_step(&p, b4));
+                            if let Err(e) = res {
+                                acc.fail(idx * 256 + y as u64, "step", format!("{}: step with byte {b4:#04x} from tail {:02x?}: {e}", VARIANT_NAMES[v], tail),
+                                         json!({"kind": "step", "variant": VARIANT_NAMES[v], "parts": hooked::parts_json(&p), "byte": b4}));
+                                return;
+                            }
+                        }
+                        acc.evals += 256;
+                        acc.transitions += 256;
+                        acc.nontrivial += 256;
+                        if idx % 65537 == 0 {
+                            acc.outcomes.insert(idx);
+                            acc.sample(idx, || json!({"variant": VARIANT_NAMES[v], "triplet": t, "b4": b4, "x": x, "y": "0..=255", "fillers": [fa, fb]}));
+                        }
+                    });
+                },
+            );
+        }
+    }
+
+    if ctx.want("short-inputs") {
+        let alphabets: Vec<(&str, Vec<u8>, u32)> = if quick {
+            vec![("sigma4", vec![0x00, 0x41, 0x7f, 0xff], 8), ("sigma2", vec![0x00, 0xff], 14)]
+        } else {
+            vec![("sigma4", vec![0x00, 0x41, 0x7f, 0xff], 10), ("sigma2", vec![0x00, 0xff], 18), ("sigma3", vec![0x0e, 0xa4, 0x20], 11)]
+        };
+        for (aname, alpha, maxlen) in alphabets {
+            let count = short_string_count(alpha.len() as u64, maxlen);
+            r.section(
+                &format!("short-inputs-{aname}"),
+                "every string over the alphabet up to the length bound, every variant, all 32 option settings, through the public API: finalize (value or specific error) and processed_len vs reference; distinct by enumeration; non-trivial = inputs with at least one Ok outcome",
+                &format!("alphabet {:02x?}, length <= {maxlen}: {count} strings x 5 variants x 32 options", alpha),
+                true,
+                |s| {
+                    let alpha = &alpha;
+                    s.acc = par_for(count * 5, 256, |idx, acc| {
+                        let v = (idx % 5) as usize;
+                        let data = short_string(alpha, idx / 5);
+                        acc.evals += 1;
+                        acc.transitions += 33;
+                        match judge_input_dyn(v, &data) {
+                            Ok(outs) => {
+                                if any_ok(&outs) {
+                                    acc.nontrivial += 1;
+                                    acc.sample(idx, || json!({"variant": VARIANT_NAMES[v], "data": hex(&data), "permissive_outcome": outcome_str(&outs[permissive(true).index()])}));
+                                }
+                                acc.outcomes.insert(outcomes_fp(&outs));
+                            }
+                            Err(e) => acc.fail(idx, "short-inputs", format!("{} input {}: {e}", VARIANT_NAMES[v], hex(&data)),
+                                               json!({"kind": "input", "variant": VARIANT_NAMES[v], "data": hex(&data)})),
+                        }
+                    });
+                },
+            );
+        }
+    }
+
+    if ctx.want("kat-inputs") {
+        r.section(
+            "kat-inputs",
+            "the known-answer inputs that bind the reference (Lorem ipsum, Hello World, timing vectors, smallexe, documented 44/50-byte vectors) through the real code, every variant, all 32 options; non-trivial = all",
+            "14 inputs x 5 variants x 32 options",
+            true,
+            |s| {
+                let mut inputs: Vec<(String, Vec<u8>)> = Vec::new();
+                for k in kat::kats() {
+                    if !inputs.iter().any(|(_, d)| *d == k.data) {
+                        inputs.push((k.name.split('/').next().unwrap().to_string(), k.data));
+                    }
+                }
+                let inputs = &inputs;
+                s.acc = par_for(inputs.len() as u64 * 5, 1, |idx, acc| {
+                    let v = (idx % 5) as usize;
+                    let (name, data) = &inputs[(idx / 5) as usize];
+                    acc.evals += 1;
+                    acc.transitions += 33;
+                    acc.nontrivial += 1;
+                    match judge_input_dyn(v, data) {
+                        Ok(outs) => {
+                            acc.outcomes.insert(outcomes_fp(&outs));
+                            acc.sample(idx, || json!({"variant": VARIANT_NAMES[v], "input": name, "default_outcome": outcome_str(&outs[0])}));
+                        }
+                        Err(e) => acc.fail(idx, "kat-inputs", format!("{} input {name}: {e}", VARIANT_NAMES[v]),
+                                           json!({"kind": "input", "variant": VARIANT_NAMES[v], "data": hex(data)})),
+                    }
+                });
+            },
+        );
+    }
+
+    if ctx.want("prefix-lengths") {
+        let top: u64 = if quick { 600 } else { 4096 };
+        let streams = Stream::all(seed);
+        r.section(
+            "prefix-lengths",
+            "prefixes S[..n] for every n up to the bound (fed byte by byte), five streams, every variant, all 32 options: finalize vs reference at every n; distinct by (variant,stream,n); non-trivial = states with at least one Ok outcome",
+            &format!("n in 0..={top} x 5 streams x 5 variants x 32 options"),
+            true,
+            |s| {
+                let streams = &streams;
+                s.acc = par_for(25, 1, |idx, acc| {
+                    let v = (idx % 5) as usize;
+                    let st = streams[(idx / 5) as usize];
+                    let key_base = idx << 40;
+                    match v {
+                        0 => judge_prefixes::<VShort>(st, 0, top, acc, key_base, "prefix-lengths"),
+                        1 => judge_prefixes::<VNormal>(st, 0, top, acc, key_base, "prefix-lengths"),
+                        2 => judge_prefixes::<VNormalLC>(st, 0, top, acc, key_base, "prefix-lengths"),
+                        3 => judge_prefixes::<VLong>(st, 0, top, acc, key_base, "prefix-lengths"),
+                        _ => judge_prefixes::<VLongLC>(st, 0, top, acc, key_base, "prefix-lengths"),
+                    }
+                });
+            },
+        );
+        if !quick {
+            // windows of +-8 around every power of two and every length-code boundary up to 2^24
+            let mut marks: Vec<u64> = (13..=24).map(|k| 1u64 << k).collect();
+            for &t in tables::TOPVAL.iter() {
+                if (t as u64) > 4096 && (t as u64) < (1 << 24) {
+                    marks.push(t as u64);
+                }
+            }
+            marks.sort();
+            marks.dedup();
+            let windows: Vec<(u64, u64)> = marks.iter().map(|&m| (m - 8, m + 8)).collect();
+            r.section(
+                "prefix-lengths-windows",
+                "as prefix-lengths, for every n within +-8 of each power of two and each length-code boundary in (4096, 2^24]; streams really fed; non-trivial = states with at least one Ok outcome",
+                &format!("{} windows x 17 lengths x 5 streams x 5 variants x 32 options", windows.len()),
+                true,
+                |s| {
+                    let streams = &streams;
+                    let windows = &windows;
+                    let nw = windows.len() as u64;
+                    s.acc = par_for(25 * nw, 1, |idx, acc| {
+                        let w = windows[(idx % nw) as usize];
+                        let v = ((idx / nw) % 5) as usize;
+                        let st = streams[(idx / nw / 5) as usize];
+                        let key_base = idx << 40;
+                        match v {
+                            0 => judge_prefixes::<VShort>(st, w.0, w.1, acc, key_base, "prefix-lengths-windows"),
+                            1 => judge_prefixes::<VNormal>(st, w.0, w.1, acc, key_base, "prefix-lengths-windows"),
+                            2 => judge_prefixes::<VNormalLC>(st, w.0, w.1, acc, key_base, "prefix-lengths-windows"),
+                            3 => judge_prefixes::<VLong>(st, w.0, w.1, acc, key_base, "prefix-lengths-windows"),
+                            _ => judge_prefixes::<VLongLC>(st, w.0, w.1, acc, key_base, "prefix-lengths-windows"),
+                        }
+                    });
+                },
+            );
+        }
+    }
+
+    #[cfg(fast_tlsh_verif)]
+    {
+        use tlsh::verif::GeneratorParts;
+        // options that matter for the distribution logic (length is Valid here)
+        let dist_opts: Vec<Opts> = Opts::all().filter(|o| !o.conservative && !o.allow_small).collect();
+        if ctx.want("quartile-shapes") {
+            let classes = if quick { 3 } else { 4 };
+            for (v, nb) in [(0usize, 48usize), (1, 128), (3, 256)] {
+                let comps = compositions(nb, classes);
+                let ncomp = comps.len() as u64;
+                r.section(
+                    &format!("quartile-shapes-{nb}"),
+                    "finalize on injected bucket arrays: every composition (n0..nk) of the effective buckets over a class alphabet x 6 value alphabets (incl. counts >= 2^24, >= 2^31, 2^32-1) x 3 placements x the 8 distribution-relevant option settings (length Valid) vs reference (full sort); distinct by enumeration; non-trivial = all; outcomes = distinct result vectors",
+                    &format!("{ncomp} compositions of {nb} over {classes} classes x 6 alphabets x 3 placements x 8 options"),
+                    true,
+                    |s| {
+                        let comps = &comps;
+                        let dist_opts = &dist_opts;
+                        s.acc = par_for(ncomp * 18, 64, |idx, acc| {
+                            let comp = &comps[(idx / 18) as usize];
+                            let a = ((idx % 18) / 3) as usize;
+                            let pl = (idx % 3) as usize;
+                            let buckets = place_buckets(nb, comp, &VALUE_ALPHABETS[a][..classes], pl);
+                            let p = GeneratorParts { buckets, len: 996, checksum: [0x21, 0, 0], tail: [9, 8, 7, 6], tail_len: 4 };
+                            acc.evals += 1;
+                            acc.transitions += 8;
+                            acc.nontrivial += 1;
+                            let res = with_variant!(v, judge_injected(&p, dist_opts));
+                            match res {
+                                Ok(fp) => {
+                                    acc.outcomes.insert(fp);
+                                    if idx % 1009 == 0 {
+                                        acc.sample(idx, || json!({"variant": VARIANT_NAMES[v], "composition": comp, "values": &VALUE_ALPHABETS[a][..classes], "placement": pl}));
+                                    }
+                                }
+                                Err(e) => acc.fail(idx, "quartile-shapes", format!("{}: composition {:?} of values {:?} placement {pl}: {e}", VARIANT_NAMES[v], comp, &VALUE_ALPHABETS[a][..classes]),
+                                                   json!({"kind": "inject", "variant": VARIANT_NAMES[v], "parts": hooked::parts_json(&p)})),
+                            }
+                        });
+                    },
+                );
+            }
+        }
+        if ctx.want("qratio-arith") {
+            let alpha = qratio_alphabet();
+            let n = alpha.len();
+            let mut triples = Vec::new();
+            for i in 0..n {
+                for j in i..n {
+                    for k in j..n {
+                        triples.push((alpha[i], alpha[j], alpha[k]));
+                    }
+                }
+            }
+            r.section(
+                "qratio-arith",
+                "all q1<=q2<=q3 from a boundary alphabet installed as the exact quartiles of an injected bucket array (nb/4 copies each, top quarter = q3 or 2^32-1), three bucket counts, both Q-ratio modes, all permissive flags on/off: finalize vs reference integer and f32 formulas; non-trivial = triples where the integer and float Q-ratio bytes differ or q3 >= 2^24",
+                &format!("{} triples ({} values) x 3 bucket counts x 2 tops x 8 options", triples.len(), n),
+                true,
+                |s| {
+                    let triples = &triples;
+                    let dist_opts = &dist_opts;
+                    s.acc = par_for(triples.len() as u64 * 6, 64, |idx, acc| {
+                        let (q1, q2, q3) = triples[(idx / 6) as usize];
+                        let (v, nb) = [(0usize, 48usize), (1, 128), (3, 256)][(idx % 3) as usize];
+                        let top = if (idx % 6) / 3 == 0 { q3 } else { u32::MAX };
+                        let q = nb / 4;
+                        let mut buckets = [0x1234_5678u32; 256];
+                        for i in 0..nb {
+                            // scatter: bucket i belongs to quartile class (i*37+11)%nb / q
+                            let cls = ((i * 37 + 11) % nb) / q;
+                            buckets[i] = [q1, q2, q3, top][cls];
+                        }
+                        let p = GeneratorParts { buckets, len: 5000, checksum: [7, 0, 0], tail: [1, 1, 1, 1], tail_len: 4 };
+                        acc.evals += 1;
+                        acc.transitions += 8;
+                        if q3 >= (1 << 24) || (q3 != 0 && (ref_qratio_int(q1, q3) != ref_qratio_f32(q1, q3) || ref_qratio_int(q2, q3) != ref_qratio_f32(q2, q3))) {
+                            acc.nontrivial += 1;
+                            acc.sample(idx, || json!({"variant": VARIANT_NAMES[v], "q1": q1, "q2": q2, "q3": q3, "top": top}));
+                        }
+                        let res = with_variant!(v, judge_injected(&p, dist_opts));
+                        match res {
+                            Ok(fp) => acc.outcomes.insert(fp),
+                            Err(e) => acc.fail(idx, "qratio-arith", format!("{}: quartiles ({q1},{q2},{q3}) top {top}: {e}", VARIANT_NAMES[v]),
+                                               json!({"kind": "inject", "variant": VARIANT_NAMES[v], "parts": hooked::parts_json(&p)})),
+                        }
+                    });
+                },
+            );
+        }
+        if ctx.want("large-counts") && !quick {
+            let total: u64 = 256 << 20;
+            r.section(
+                "large-counts",
+                "streams S3 (a4 0e) and S0 really fed up to 256 MiB in 1 MiB+3 pieces; at every 2^k-byte checkpoint the real state (read back through the hook) is compared with the byte-at-a-time reference state, and all 32 finalizations are compared; also validates the injection hook (from_parts(to_parts(g)) finalizes identically); non-trivial = checkpoints",
+                "2 streams x 5 variants x 256 MiB, checkpoints at 2^k and 2^k+1000003",
+                true,
+                |s| {
+                    s.acc = par_for(10, 1, |idx, acc| {
+                        let v = (idx % 5) as usize;
+                        let st = if idx / 5 == 0 { Stream::A40e } else { Stream::Mixed };
+                        fn go<V: Variant>(st: Stream, total: u64, acc: &mut Acc, key: u64) {
+                            use crate::checks::common::hooked::*;
+                            let mut g = V::new_gen();
+                            let mut r = V::ref_gen();
+                            let mut off = 0u64;
+                            let piece = (1usize << 20) + 3;
+                            let mut buf = vec![0u8; piece];
+                            let mut next_cp = 1u64 << 16;
+                            while off < total {
+                                let k = ((total - off) as usize).min(piece).min((next_cp - off) as usize);
+                                st.fill(off, &mut buf[..k]);
+                                g.update(&buf[..k]);
+                                r.feed_all(&buf[..k]);
+                                off += k as u64;
+                                acc.transitions += 1;
+                                if off == next_cp {
+                                    next_cp = if next_cp.is_power_of_two() { next_cp + 1_000_003 } else { (next_cp - 1_000_003) * 2 };
+                                    acc.evals += 1;
+                                    acc.nontrivial += 1;
+                                    let p = V::gen_to_parts(&g);
+                                    let res = parts_match_ref::<V>(&p, &r)
+                                        .and_then(|_| compare_all_opts::<V>(&g, &r).map(|o| outcomes_fp(&o)))
+                                        .and_then(|fp| {
+                                            let twin = V::gen_from_parts(&p);
+                                            compare_all_opts::<V>(&twin, &r).map_err(|e| format!("injected twin: {e}")).map(|_| fp)
+                                        });
+                                    match res {
+                                        Ok(fp) => {
+                                            acc.outcomes.insert(fp);
+                                            acc.sample(key + off, || json!({"variant": V::NAME, "stream": st.name(), "n": off, "max_bucket": p.buckets.iter().max()}));
+                                        }
+                                        Err(e) => {
+                                            acc.fail(key + off, "large-counts", format!("{} {} after {off} bytes: {e}", V::NAME, st.name()),
+                                                     json!({"kind": "prefix", "variant": V::NAME, "stream": st.name(), "n": off}));
+                                            return;
+                                        }
+                                    }
+                                }
+                            }
+                        }
+                        let key = idx << 40;
+                        match v {
+                            0 => go::<VShort>(st, total, acc, key),
+                            1 => go::<VNormal>(st, total, acc, key),
+                            2 => go::<VNormalLC>(st, total, acc, key),
+                            3 => go::<VLong>(st, total, acc, key),
+                            _ => go::<VLongLC>(st, total, acc, key),
+                        }
+                    });
+                },
+            );
+        }
+    }
+}
+
+pub fn replay(case: &Value) -> Result<(), String> {
+    let kind = case["kind"].as_str().unwrap_or("");
+    match kind {
+        "input" => {
+            let data = unhex(case["data"].as_str().ok_or("data")?);
+            let v = case["variant"].as_str().ok_or("variant")?;
+            println!("variant={v} input={} bytes", data.len());
+            judge_input_dyn(variant_index(v), &data).map(|outs| {
+                println!("all 32 outcomes agree; default = {}", outcome_str(&outs[0]));
+            })
+        }
+        "prefix" => {
+            let v = case["variant"].as_str().ok_or("variant")?;
+            let st = Stream::from_name(case["stream"].as_str().ok_or("stream")?).ok_or("stream name")?;
+            let n = case["n"].as_u64().ok_or("n")?;
+            with_variant!(v, judge_prefix_one(st, n))
+        }
+        #[cfg(fast_tlsh_verif)]
+        "bmap" => {
+            let g = |k: &str| case[k].as_u64().unwrap_or(0) as u8;
+            let (salt, b1, b2, b3) = (g("salt"), g("b1"), g("b2"), g("b3"));
+            let (real, expect) = if case["is48"].as_bool().unwrap_or(false) {
+                (tlsh::verif::b_mapping_48(salt, b1, b2, b3), ref_bmap48(salt, b1, b2, b3))
+            } else {
+                (tlsh::verif::b_mapping_256(salt, b1, b2, b3), ref_bmap256(salt, b1, b2, b3))
+            };
+            if real == expect { Ok(()) } else { Err(format!("b_mapping = {real}, reference = {expect}")) }
+        }
+        #[cfg(fast_tlsh_verif)]
+        "step" => {
+            let v = case["variant"].as_str().ok_or("variant")?;
+            let p = hooked::parts_from_json(&case["parts"]);
+            let b = case["byte"].as_u64().ok_or("byte")? as u8;
+            with_variant!(v, judge_step(&p, b))
+        }
+        #[cfg(fast_tlsh_verif)]
+        "inject" => {
+            let v = case["variant"].as_str().ok_or("variant")?;
+            let p = hooked::parts_from_json(&case["parts"]);
+            let all: Vec<Opts> = Opts::all().collect();
+            with_variant!(v, judge_injected(&p, &all)).map(|_| ())
+        }
+        k => Err(format!("unknown replay kind {k}")),
+    }
+}
